@@ -83,4 +83,25 @@ structure Life where
 
 def Life.aliveAt (l : Life) (t : Nat) : Bool := l.start ≤ t && t < l.stop
 
+/-- What `unwrap_thread(thread)` hands on. -/
+inductive ThreadResult
+  | callerSlice            -- `StackSlice()`: the calling thread's own stack, ending at the caller
+  | inner (f : Nat)        -- `StackSlice(inner=frame)`
+  | nothing                -- `[]`
+  deriving DecidableEq, Repr
+
+/-- The whole function: the calling-thread test first (as the source has it: same ident *and* alive), then the guarded lookup. -/
+def unwrapThreadFull (identIsCallers aliveNow wasAlive : Bool) (frameAtIdent : Option Nat) (aliveAfter : Bool) : ThreadResult :=
+  if identIsCallers && aliveNow then .callerSlice
+  else match unwrapThread wasAlive frameAtIdent aliveAfter with
+    | some f => .inner f
+    | none => .nothing
+
+/-- As it was between the repairs of F39 and F60: the ident alone decided. -/
+def unwrapThreadIdentOnly (identIsCallers wasAlive : Bool) (frameAtIdent : Option Nat) (aliveAfter : Bool) : ThreadResult :=
+  if identIsCallers then .callerSlice
+  else match unwrapThread wasAlive frameAtIdent aliveAfter with
+    | some f => .inner f
+    | none => .nothing
+
 end SS.Snapshot
